@@ -41,6 +41,37 @@ func nInproc(tier string) int {
 	return 4
 }
 
+// Batch layout (new families are appended so that the PRNG streams of the older batches keep
+// their batch numbers): [0,nPkg) generated packages (batch 0 = seed package), then nInproc
+// in-process Option/Unit batches, then 1 wide-struct seed package (21/22/23/30 fields), then
+// nAlias batches of the direct-call aliasing part, then nConc concurrent batches, the first
+// nConcRace of which run in the -race build of the worker.
+func nAlias(tier string) int {
+	if tier == "thorough" {
+		return 8
+	}
+	return 2
+}
+
+func nConc(tier string) int {
+	if tier == "thorough" {
+		return 8
+	}
+	return 4
+}
+
+func nConcRace(tier string) int {
+	if tier == "thorough" {
+		return 4
+	}
+	return 2
+}
+
+func wideBatch(tier string) int   { return nPkg(tier) + nInproc(tier) }
+func aliasBatch0(tier string) int { return wideBatch(tier) + 1 }
+func concBatch0(tier string) int  { return aliasBatch0(tier) + nAlias(tier) }
+func nBatches(tier string) int    { return concBatch0(tier) + nConc(tier) }
+
 // ---- package part -----------------------------------------------------------------------
 
 func runPackageCase(w *vrt.W, tool *gbk.Tool, i int) {
@@ -49,6 +80,8 @@ func runPackageCase(w *vrt.W, tool *gbk.Tool, i int) {
 	var p *gbk.Pkg
 	if w.Batch == 0 {
 		p = gbk.JSONSeedPackage(r, name)
+	} else if w.Batch == wideBatch(w.Tier) {
+		p = gbk.JSONWideSeedPackage(r, name)
 	} else {
 		p = gbk.NewG(r, name, true).RandomPackage()
 	}
@@ -708,16 +741,36 @@ func main() {
 	nShapes := len(shapes())
 	vrt.Main(vrt.Config{
 		Property: property,
-		Batches:  func(tier string) int { return nPkg(tier) + nInproc(tier) },
+		Batches:  nBatches,
 		Cases: func(tier string, b int) int {
-			if b < nPkg(tier) {
+			switch {
+			case b < nPkg(tier) || b == wideBatch(tier):
 				return 1
+			case b >= concBatch0(tier):
+				return len(concPlans)
+			case b >= aliasBatch0(tier):
+				return len(aliasShapes()) // every aliasing batch visits every shape once
 			}
 			return nShapes // every in-process batch visits every shape once
 		},
-		Parallel: 16,
+		RaceBatch: func(tier string, b int) bool {
+			return b >= concBatch0(tier) && b < concBatch0(tier)+nConcRace(tier)
+		},
+		Parallel:    16,
+		WorkerProcs: 4,
 		Run: func(w *vrt.W) {
-			if w.Batch >= nPkg(w.Tier) {
+			switch {
+			case w.Batch >= concBatch0(w.Tier):
+				for i := w.From; i < w.To; i++ {
+					runConcCase(w, i)
+				}
+				return
+			case w.Batch >= aliasBatch0(w.Tier):
+				for i := w.From; i < w.To; i++ {
+					runAliasCase(w, i)
+				}
+				return
+			case w.Batch >= nPkg(w.Tier) && w.Batch != wideBatch(w.Tier):
 				for i := w.From; i < w.To; i++ {
 					runInprocCase(w, i)
 				}
@@ -734,19 +787,35 @@ func main() {
 			}
 		},
 		CaseCPUBudget: 600,
-		Rule:          "two kinds of cases. (a) in-process: one case = one payload type shape T (ints of every width, floats, bool, escape-heavy valid-UTF-8 strings, slices, []byte, arrays, maps, pointers, time.Time in UTC, structs, tuples, nested Options, Unit, any) with 150 (thorough 400) generated fp.Option[T] values: Marshal must give the payload's encoding / null, Unmarshal(Marshal(x)) must equal x (stand-alone, into a pre-set target, and inside struct/slice/map/pointer containers) whenever the payload's encoding is faithful and not null; then 300 (800) hostile inputs (classics, PRNG bytes, truncated / bit-flipped / type-swapped / number-inflated / structurally damaged mutations of the valid documents, 10001-deep nesting) go through json.Unmarshal and direct UnmarshalJSON: no panic, and on error the target equals the sentinel it held. (b) one case = one generated package of @fp.Value @fp.Json structs (grammar of C07 restricted to faithfully encodable field types, plus a few any / Option[*T] / Option[[]T] fields used for the never-panics part only): gombok from the working tree, then a law test in the same package checks per struct on 100 (160) values: Marshal(x) == Marshal(x.AsMutable()) == Marshal(&x) == x.MarshalJSON() byte for byte, the reflected field names / types / tags of the Mutable twin follow gombok's rule, Unmarshal(Marshal(x)) == x field by field (nil ≡ empty), and 260 (400) hostile inputs per struct never panic and leave the target unchanged on error. distinct_nontrivial = distinct @fp.Json struct shapes whose laws ran + distinct (payload shape, case seed) pairs of the in-process part.",
+		Rule:          "two kinds of cases. (a) in-process: one case = one payload type shape T (ints of every width, floats, bool, escape-heavy valid-UTF-8 strings, slices, []byte, arrays, maps, pointers, time.Time in UTC, structs, tuples, nested Options, Unit, any) with 150 (thorough 400) generated fp.Option[T] values: Marshal must give the payload's encoding / null, Unmarshal(Marshal(x)) must equal x (stand-alone, into a pre-set target, and inside struct/slice/map/pointer containers) whenever the payload's encoding is faithful and not null; then 300 (800) hostile inputs (classics, PRNG bytes, truncated / bit-flipped / type-swapped / number-inflated / structurally damaged mutations of the valid documents, 10001-deep nesting) go through json.Unmarshal and direct UnmarshalJSON: no panic, and on error the target equals the sentinel it held. (b) one case = one generated package of @fp.Value @fp.Json structs (grammar of C07 restricted to faithfully encodable field types, plus a few any / Option[*T] / Option[[]T] fields used for the never-panics part only): gombok from the working tree, then a law test in the same package checks per struct on 100 (160) values: Marshal(x) == Marshal(x.AsMutable()) == Marshal(&x) == x.MarshalJSON() byte for byte, the reflected field names / types / tags of the Mutable twin follow gombok's rule, Unmarshal(Marshal(x)) == x field by field (nil ≡ empty), and 260 (400) hostile inputs per struct never panic and leave the target unchanged on error. Every generated struct is additionally compared with an INDEPENDENT reference of its JSON object written from the spec (one member per non-underscore field, declaration order, key = copied json tag or json:\"<field>\", omitempty exactly for nilable / Option kinds, member value = the field's own encoding; nothing of AsMutable is consulted) and decoded from that reference document; 25 % extra values per struct carry a non-zero, non-empty value in every field; a second seed package holds @fp.Json structs with 21, 22, 23 and 30 fields. (c) direct-call aliasing: MarshalJSON / UnmarshalJSON of Option, Unit and the generated structs are called directly, every returned []byte is kept as returned next to a copy while later Marshal calls run (same value, other values, other payload types, a helper goroutine, encoding/json over containers) and re-compared at the end, then overwritten by the caller and every value marshalled again; the same input buffer is decoded twice, must come back unchanged, is overwritten afterwards and the decoded value must not change. (d) concurrent: 32..128 goroutines marshal / unmarshal Options whose payloads (1 B .. 1 MB, pure function of case seed, goroutine, iteration, text naming its owner) have an encoding known without encoding/json; every result must be the goroutine's own encoding and decode back; half of these batches run in the -race build (race reports inside csgura/fp are violations). distinct_nontrivial = distinct @fp.Json struct shapes whose laws ran + distinct (payload shape, case seed) pairs of the in-process and aliasing parts + distinct (plan, case seed) pairs of the concurrent part.",
 		Assumptions: []string{
 			"payload values are valid UTF-8 strings, finite floats, UTC times without monotonic reading in years 1..9999; other values are not faithfully encodable by encoding/json itself",
 			"Some(v) with a null-encoding payload (nil pointer/slice/map, None, Unit, nil interface) and any-typed payloads are only used for the never-panics part",
 			"for named or alias field types whose underlying type is nilable (any, fp.Seq, named interfaces, named strings) the documented tag rule does not say whether omitempty is added; both spellings are accepted and the observed choice is counted",
 			"'unchanged on error' is decided on the struct value itself (scalars, pointer/map/slice identities); storage reachable through maps/slices/pointers shared with the previous value is checked separately under its own key",
 			"hostile inputs and values are PRNG samples",
+			"a []byte returned by MarshalJSON belongs to the caller (it may keep it and write to it) and an input passed to UnmarshalJSON belongs to the caller (it may be reused after the call): the unchanged library returns fresh slices and copies what it decodes, which is what encoding/json documents for Unmarshaler; both directions are checked under their own keys (marshal-result-changed-later, marshal-result-shared-with-later-calls, retains-input, modifies-input)",
+			"the concurrent part reports content mismatches and race-detector reports only; goroutine scheduling decides how often a broken library is caught, never whether a correct one passes",
 		},
 		Floors: func(tier string) map[string]int64 {
 			m := map[string]int64{"packages": 8, "structs.tested": 20, "structs.faithful": 12, "values_roundtripped": 10000, "hostile_inputs": 30000, "hostile_rejected": 10000,
 				"json.roundtrip.struct-values": 1500, "json.hostile.inputs": 8000, "json.hostile.rejected": 3000, "roundtrip.some": 3000, "roundtrip.none": 1500}
 			for _, s := range shapes() {
 				m["hit.shape."+s.name] = 1
+			}
+			// direct-call aliasing part, concurrent part, wide structs and the independent reference object
+			for _, s := range aliasShapes() {
+				m["hit.alias."+s.name] = 1
+			}
+			for _, p := range concPlans {
+				m["hit.conc."+p.Mode] = 1
+			}
+			m["alias.marshal_results_compared_later"], m["alias.marshal_results_overwritten_by_caller"], m["alias.unmarshal_inputs_overwritten"] = 4000, 4000, 4000
+			m["json.alias.marshal-results-kept"], m["json.alias.unmarshal-inputs-overwritten"] = 2000, 1000
+			m["conc.marshals"], m["conc.unmarshals"], m["conc.cases_with_1MB_payloads"], m["conc.goroutines"] = 20000, 20000, 1, 500
+			m["json.reference-object.struct-values"], m["json.reference-decode.struct-values"] = 1500, 1000
+			for _, n := range gbk.WideFieldCounts {
+				m[fmt.Sprintf("json.wide.fields-%d.all-nonzero-values", n)] = 20
 			}
 			if tier == "thorough" {
 				m["packages"], m["structs.tested"], m["structs.faithful"] = 64, 180, 100
